@@ -172,6 +172,10 @@ def cross_graph_cases():
     g2["script"] = [["B"]]           # the function returns the same boolean: True selects the gate's OWN when_true
     na, nb = IR.func("A", ["x"], ["a"]), IR.func("B", ["x"], ["b"])
     out.append((IR.prog("top", [g1, na, nb]), IR.prog("top", [g2, na, nb]), [["x", "in.x"]], "shared-func/gate-swapped-targets"))
+    # the same routing function (it returns None) in two route gates with the same targets but different FALLBACKS
+    def fgate(fb):
+        return IR.route("G", ["x"], ["A", "B"], [[IR.NONE]], cache=True, fid="shared_fb", tname="FB", fallback=fb)
+    out.append((IR.prog("top", [fgate("A"), na, nb]), IR.prog("top", [fgate("B"), na, nb]), [["x", "in.x"]], "shared-func/gate-different-fallback"))
     return out
 
 
